@@ -282,6 +282,39 @@ Proof.
   rewrite rev_app_distr. reflexivity.
 Qed.
 
+Lemma bcast_ok_r_app_long a b d :
+  (length b <= length a)%nat -> bcast_ok_r (a ++ [d]) b = bcast_ok_r a b && (d =? 1).
+Proof.
+  revert b. induction a as [|x a IH]; intros b Hl.
+  - destruct b; simpl in *; [rewrite andb_true_r; reflexivity|lia].
+  - destruct b as [|y b]; simpl in *.
+    + rewrite (IH [] ltac:(simpl; lia)). rewrite andb_assoc. reflexivity.
+    + rewrite IH by lia. rewrite andb_assoc. reflexivity.
+Qed.
+
+Lemma bidx_r_app_long a b d :
+  (length b <= length a)%nat -> bidx_r (a ++ [d]) b = bidx_r a b ++ [0].
+Proof.
+  revert b. induction a as [|x a IH]; intros b Hl.
+  - destruct b; simpl in *; [reflexivity|lia].
+  - destruct b as [|y b]; simpl in *.
+    + rewrite (IH [] ltac:(simpl; lia)). reflexivity.
+    + rewrite IH by lia. reflexivity.
+Qed.
+
+(* a value with more axes than the selection: the surplus leading extent must be 1 *)
+Lemma bcast_ok_long d vs ss :
+  (length ss <= length vs)%nat -> bcast_ok (d :: vs) ss = bcast_ok vs ss && (d =? 1).
+Proof.
+  intros Hl. unfold bcast_ok. simpl. apply bcast_ok_r_app_long. rewrite !rev_length. assumption.
+Qed.
+
+Lemma bidx_long d vs js : (length js <= length vs)%nat -> bidx (d :: vs) js = 0 :: bidx vs js.
+Proof.
+  intros Hl. unfold bidx. simpl. rewrite bidx_r_app_long by (rewrite !rev_length; assumption).
+  rewrite rev_app_distr. reflexivity.
+Qed.
+
 Lemma bidx_nil js : bidx [] js = [].
 Proof. reflexivity. Qed.
 
@@ -725,11 +758,48 @@ Section BasicStep.
   Hypothesis veqb_eq : forall a b, veqb a b = true <-> a = b.
   Variable fill : V.
 
+  (* dropping the surplus leading axes of extent 1 of the value (slice targets) *)
+  Lemma drop_lead_spec ss : (0 < length ss)%nat ->
+    forall vs (v : arr V), a_shape v = vs -> bcast_ok vs ss = true ->
+    let v' := drop_lead vs v (Z.of_nat (length ss)) in
+    bcast_ok (a_shape v') ss = true /\ (length (a_shape v') <= length ss)%nat /\
+    forall js, length js = length ss -> a_get v' (bidx (a_shape v') js) = a_get v (bidx vs js).
+  Proof.
+    intros Hss. induction vs as [|d vs IH]; intros v Hv Hb; cbn [drop_lead].
+    - cbv zeta. rewrite Hv. split; [exact Hb|]. split; [simpl; lia|reflexivity].
+    - unfold ndim. rewrite Hv. cbn [length].
+      destruct (Nat.le_gt_cases (S (length vs)) (length ss)) as [Hle|Hgt].
+      + destruct (Z.ltb_spec (Z.of_nat (length ss)) (Z.of_nat (S (length vs)))); [lia|].
+        cbn [andb]. cbv zeta. rewrite Hv. split; [exact Hb|]. split; [simpl; lia|reflexivity].
+      + rewrite bcast_ok_long in Hb by lia. apply andb_true_iff in Hb. destruct Hb as [Hb Hd].
+        destruct (Z.ltb_spec (Z.of_nat (length ss)) (Z.of_nat (S (length vs)))); [|lia].
+        destruct (Z.ltb_spec 0 (Z.of_nat (length ss))); [|lia].
+        rewrite Hd. cbn [andb].
+        assert (Hsub : a_shape (sub v 0) = vs) by (unfold sub; simpl; rewrite Hv; reflexivity).
+        destruct (IH (sub v 0) Hsub Hb) as (H1 & H2 & H3). cbv zeta in *.
+        split; [exact H1|]. split; [exact H2|].
+        intros js Hjs. rewrite (H3 js Hjs). rewrite bidx_long by lia. reflexivity.
+  Qed.
+
+  (* what _setitem receives, for a value NumPy accepts (vs against the selection ss; a target
+     without slices takes a 0-d value only) *)
+  Lemma drop_leading_spec (v : arr V) ss :
+    bcast_ok (a_shape v) ss = true -> (ss = [] -> a_shape v = []) ->
+    let v' := drop_leading v (Z.of_nat (length ss)) in
+    bcast_ok (a_shape v') ss = true /\ (length (a_shape v') <= length ss)%nat /\
+    forall js, length js = length ss -> a_get v' (bidx (a_shape v') js) = a_get v (bidx (a_shape v) js).
+  Proof.
+    intros Hb H0. unfold drop_leading. destruct ss as [|s ss'].
+    - rewrite (H0 eq_refl). cbn [drop_lead]. cbv zeta. rewrite (H0 eq_refl).
+      split; [reflexivity|]. split; [simpl; lia|reflexivity].
+    - apply drop_lead_spec; [simpl; lia|reflexivity|exact Hb].
+  Qed.
+
   Lemma setitem_basic_spec sh (st : state V) es v axs :
     shape_ok sh ->
     np_axes (np_pad es sh) sh = Some axs ->
     bcast_ok (a_shape v) (selshape axs) = true ->
-    (length (a_shape v) <= length (selshape axs))%nat ->
+    (selshape axs = [] -> a_shape v = []) ->
     exists st',
       setitem_basic veqb sh fill st es v = Ok st' /\
       (forall ix, abs fill st' ix =
@@ -739,12 +809,16 @@ Section BasicStep.
                   end) /\
       (wf V veqb fill sh st -> wf V veqb fill sh st').
   Proof.
-    intros Hok Hax Hb Hl.
+    intros Hok Hax Hb H0.
     destruct (norm_entries_resolves _ _ _ Hok Hax) as (ents & Hn & Hf & _).
-    destruct (setitem_go_spec V veqb veqb_eq fill sh ents axs Hf [] v st Hb Hl) as (st' & He & Ha & Hw).
+    destruct (drop_leading_spec v (selshape axs) Hb H0) as (Hb' & Hl' & Hg).
+    rewrite <- (nslices_resolves _ _ Hf) in Hb', Hl', Hg.
+    destruct (setitem_go_spec V veqb veqb_eq fill sh ents axs Hf [] _ st Hb' Hl') as (st' & He & Ha & Hw).
     exists st'. split; [|split].
     - unfold setitem_basic, normalize_key. rewrite Hn. simpl. exact He.
-    - intros ix. rewrite Ha. reflexivity.
+    - intros ix. rewrite Ha. unfold gatherf. simpl.
+      destruct (locate axs ix) as [js|] eqn:El; [|reflexivity].
+      apply Hg. eapply locate_length. eassumption.
     - apply Hw. intros t Ht. simpl. eapply np_axes_in_range; eassumption.
   Qed.
 End BasicStep.
@@ -946,7 +1020,7 @@ Section IndexStep.
     shape_ok sh -> index_no_newaxis ix = true -> index_no_arrays ix = true -> index_no_zero_step ix = true ->
     np_index_axes sh ix = Some axs ->
     bcast_ok (a_shape v) (selshape axs) = true ->
-    (length (a_shape v) <= length (selshape axs))%nat ->
+    (selshape axs = [] -> a_shape v = []) ->
     exists st',
       setitem_index veqb sh fill st ix v = Ok st' /\
       (forall ix0, abs fill st' ix0 =
@@ -956,16 +1030,30 @@ Section IndexStep.
                    end) /\
       (wf V veqb fill sh st -> wf V veqb fill sh st').
   Proof.
-    intros Hok Hnn Hna Hz Hax Hb Hl.
+    intros Hok Hnn Hna Hz Hax Hb H0.
     destruct (index_link sh ix Hok Hnn Hna Hz) as [(nix & axs' & Hn & Hax' & Hf & Hin & _)|[_ Hnone]];
       [|congruence].
     rewrite Hax in Hax'. inversion Hax'; subst axs'.
-    destruct (setitem_go_spec V veqb veqb_eq fill sh _ axs Hf [] v st Hb Hl) as (st' & He & Ha & Hw).
+    destruct (drop_leading_spec V v (selshape axs) Hb H0) as (Hb' & Hl' & Hg).
+    rewrite <- (nslices_resolves _ _ Hf) in Hb', Hl', Hg.
+    destruct (setitem_go_spec V veqb veqb_eq fill sh _ axs Hf [] _ st Hb' Hl') as (st' & He & Ha & Hw).
     exists st'. split; [|split].
     - unfold setitem_index. rewrite Hn. cbn [bind]. exact He.
-    - intros ix0. rewrite Ha. reflexivity.
+    - intros ix0. rewrite Ha. unfold gatherf. simpl.
+      destruct (locate axs ix0) as [js|] eqn:El; [|reflexivity].
+      apply Hg. eapply locate_length. eassumption.
     - apply Hw. intros t Ht. simpl. apply Hin. exact Ht.
   Qed.
+
+  (* the empty key: (Ellipsis,) and () expand alike *)
+  Lemma expand_ellipsis_only nd : expand nd [IEllipsis] = expand nd [].
+  Proof.
+    unfold expand, countb. cbn [filter is_ell consumes length Z.of_nat]. simpl.
+    destruct (nd - 0 <? 0); [reflexivity|]. rewrite app_nil_r. reflexivity.
+  Qed.
+
+  Lemma np_index_axes_empty sh : np_index_axes sh [IEllipsis] = np_index_axes sh [].
+  Proof. unfold np_index_axes. rewrite expand_ellipsis_only. reflexivity. Qed.
 End IndexStep.
 
 (* ------------------------------------------------------------------ _fancy_setitem *)
@@ -1001,6 +1089,13 @@ Proof.
     rewrite zip_cons_length; rewrite IH by assumption; auto.
 Qed.
 
+(* every entry of every list inside its axis *)
+Fixpoint fancy_in_range (ls : list (list Z)) (sh : shape) : bool :=
+  match ls, sh with
+  | l :: ls', d :: sh' => forallb (fun i => (0 <=? i) && (i <? d)) l && fancy_in_range ls' sh'
+  | _, _ => true
+  end.
+
 Lemma transpose_in_range n : forall ls sh,
   length ls = length sh -> fancy_in_range ls sh = true -> Forall (in_range sh) (transpose n ls).
 Proof.
@@ -1012,28 +1107,105 @@ Proof.
     split; [lia|]. specialize (IH sh ltac:(lia) Hr2). rewrite Forall_forall in IH. auto.
 Qed.
 
-Lemma wrap_all_id l d ws :
-  forallb (fun i => (0 <=? i) && (i <? d)) l = true -> wrap_all l d = Some ws -> ws = l.
+(* _fancy_key on integer lists = the Spec's wrapping (check_index, sanitize, posify_index) *)
+Lemma wrap_all_eq l d :
+  wrap_all l d = if forallb (in_bounds d) l then Some (map (wrap d) l) else None.
 Proof.
-  revert ws. induction l as [|i l IH]; simpl; intros ws Hr H.
-  - inversion H. reflexivity.
-  - apply andb_true_iff in Hr. destruct Hr as [Hi Hr].
-    destruct (wrap_index i d) as [k|] eqn:Ew; [|discriminate].
-    destruct (wrap_all l d) as [r|] eqn:Er; [|discriminate].
-    inversion H; subst. rewrite (IH r Hr eq_refl). f_equal.
-    apply wrap_index_some in Ew. destruct Ew as [_ ->]. destruct (Z.ltb_spec i 0); [lia|reflexivity].
+  induction l as [|i l IH]; [reflexivity|]. cbn [wrap_all forallb map]. rewrite IH.
+  unfold wrap_index, in_bounds, wrap.
+  destruct ((- d <=? i) && (i <? d)); [|reflexivity]. cbn [andb].
+  destruct (forallb (fun i0 => (- d <=? i0) && (i0 <? d)) l); reflexivity.
 Qed.
 
-Lemma wrap_lists_id : forall ls sh ws,
-  fancy_in_range ls sh = true -> wrap_lists ls sh = Some ws -> ws = ls /\ length ls = length sh.
+Lemma posify_arr l d : g_posify_index (VInt d) (VArr l) = Ok (VArr (map (wrap d) l)).
+Proof. reflexivity. Qed.
+
+Lemma fancy_key1_arr l d :
+  fancy_key1 (VArr l) d = if forallb (in_bounds d) l then Ok (map (wrap d) l) else Raise IndexError.
 Proof.
-  induction ls as [|l ls IH]; intros [|d sh] ws Hr H; simpl in *; try discriminate.
-  - inversion H. auto.
-  - apply andb_true_iff in Hr. destruct Hr as [Hr1 Hr2].
-    destruct (wrap_all l d) as [l'|] eqn:El; [|discriminate].
+  unfold fancy_key1. rewrite check_arr. destruct (forallb (in_bounds d) l); [|reflexivity].
+  cbn [bind CooIndex.sanitize]. rewrite posify_arr. reflexivity.
+Qed.
+
+Lemma fancy_key1_mask m d :
+  fancy_key1 (VBArr m) d = if Z.of_nat (length m) =? d then Ok (nonzero_from 0 m) else Raise IndexError.
+Proof.
+  unfold fancy_key1. rewrite check_barr. destruct (Z.of_nat (length m) =? d); [|reflexivity].
+  cbn [bind CooIndex.sanitize]. rewrite posify_arr. cbn [bind].
+  rewrite map_wrap_nonneg; [reflexivity|]. apply nonzero_from_nonneg. lia.
+Qed.
+
+Lemma wrapped_in_range d l : forallb (in_bounds d) l = true ->
+  forallb (fun i => (0 <=? i) && (i <? d)) (map (wrap d) l) = true.
+Proof.
+  intros H. rewrite forallb_forall in *. intros y Hy. apply in_map_iff in Hy. destruct Hy as [x [<- Hx]].
+  specialize (H x Hx). unfold in_bounds in H. unfold wrap. destruct (Z.ltb_spec x 0); lia.
+Qed.
+
+Lemma wrap_lists_keys : forall ls sh ws,
+  wrap_lists ls sh = Some ws ->
+  fancy_keys (map VArr ls) sh = Ok ws /\ fancy_in_range ws sh = true
+  /\ map (@length Z) ws = map (@length Z) ls /\ length ls = length sh.
+Proof.
+  induction ls as [|l ls IH]; intros [|d sh] ws H; simpl in *; try discriminate.
+  - inversion H. repeat split.
+  - rewrite wrap_all_eq in H. rewrite fancy_key1_arr.
+    destruct (forallb (in_bounds d) l) eqn:Eb; [|discriminate].
     destruct (wrap_lists ls sh) as [r|] eqn:Er; [|discriminate].
-    inversion H; subst. destruct (IH sh r Hr2 Er) as [-> Hlen].
-    rewrite (wrap_all_id l d l' Hr1 El). auto.
+    inversion H; subst; clear H. destruct (IH sh r Er) as (H1 & H2 & H3 & H4).
+    cbn [bind]. rewrite H1. cbn [bind]. split; [reflexivity|]. split; [|split].
+    + cbn [fancy_in_range]. rewrite (wrapped_in_range d l Eb), H2. reflexivity.
+    + cbn [map]. rewrite map_length, H3. reflexivity.
+    + rewrite H4. reflexivity.
+Qed.
+
+Lemma forallb_length_map (n : nat) (ws ls : list (list Z)) :
+  map (@length Z) ws = map (@length Z) ls ->
+  forallb (fun l => Nat.eqb (length l) n) ws = forallb (fun l => Nat.eqb (length l) n) ls.
+Proof.
+  revert ls. induction ws as [|w ws IH]; intros [|l ls] H; simpl in *; try discriminate; [reflexivity|].
+  inversion H as [[H1 H2]]. rewrite H1, (IH ls H2). reflexivity.
+Qed.
+
+(* the rows of a mask over a 1-d array *)
+Lemma flat_map_single {A B} (f : A -> B) l : flat_map (fun x => [f x]) l = map f l.
+Proof. induction l; simpl; congruence. Qed.
+
+Lemma all_indices_1d d : all_indices [d] = map (fun i => [Z.of_nat i]) (seq 0 (Z.to_nat d)).
+Proof.
+  simpl. rewrite (flat_map_single (fun i => [i])). unfold zrange. rewrite map_map. reflexivity.
+Qed.
+
+Lemma mask_filter_rows : forall (m : list bool) k,
+  map fst (filter snd (combine (map (fun i => [Z.of_nat i]) (seq k (length m))) m))
+  = map (fun x => [x]) (nonzero_from (Z.of_nat k) m).
+Proof.
+  induction m as [|b m IH]; intros k; [reflexivity|].
+  cbn [length seq map combine filter snd nonzero_from]. rewrite map_app.
+  replace (Z.of_nat k + 1) with (Z.of_nat (S k)) by lia. rewrite <- (IH (S k)).
+  destruct b; reflexivity.
+Qed.
+
+Lemma zip_cons_single l : zip_cons l (repeat [] (length l)) = map (fun x => [x]) l.
+Proof. induction l as [|x l IH]; simpl; [reflexivity|]. rewrite IH. reflexivity. Qed.
+
+Lemma mask_rows_1d d m rows :
+  0 <= d -> mask_rows [d] m = Some rows ->
+  Z.of_nat (length m) = d /\ rows = transpose (length (nonzero_from 0 m)) [nonzero_from 0 m].
+Proof.
+  intros Hd. unfold mask_rows. rewrite all_indices_1d. rewrite map_length, seq_length.
+  destruct (Nat.eqb_spec (length m) (Z.to_nat d)) as [E|]; [|discriminate].
+  intros H. inversion H; subst rows; clear H. split; [lia|].
+  rewrite <- E. eapply eq_trans; [apply (mask_filter_rows m 0)|].
+  cbn [transpose]. rewrite zip_cons_single. reflexivity.
+Qed.
+
+Lemma mask_rows_in_range sh m rows : mask_rows sh m = Some rows -> Forall (in_range sh) rows.
+Proof.
+  unfold mask_rows. destruct (Nat.eqb (length m) (length (all_indices sh))); [|discriminate].
+  intros H. inversion H; subst; clear H. apply Forall_forall. intros y Hy.
+  apply in_map_iff in Hy. destruct Hy as [[k b] [<- Hk]]. apply filter_In in Hk. destruct Hk as [Hk _].
+  apply in_combine_l in Hk. apply all_indices_In. exact Hk.
 Qed.
 
 Lemma nth_repeat_lt {A} (x d : A) n j : (j < n)%nat -> nth j (repeat x n) d = x.
@@ -1082,12 +1254,59 @@ Section FancyStep.
     inversion Hr; subst. apply IH; [assumption|]. apply wf_store; assumption.
   Qed.
 
+  (* _fancy_setitem once _fancy_key has produced the index lists ls (rows = their transpose) *)
+  Lemma fancy_setitem_core sh (st : state V) ps v ls l0 ls' :
+    length ps = length sh -> fancy_keys ps sh = Ok ls -> ls = l0 :: ls' ->
+    forallb (fun l => Nat.eqb (length l) (length l0)) ls = true ->
+    Forall (in_range sh) (transpose (length l0) ls) ->
+    bcast_ok (a_shape v) [Z.of_nat (length (transpose (length l0) ls))] = true ->
+    (length (a_shape v) <= 1)%nat ->
+    exists st',
+      fancy_setitem veqb sh fill st ps v = Ok st' /\
+      (forall ix, abs st' ix =
+                  match last_pos idx_eqb ix (transpose (length l0) ls) with
+                  | Some j => a_get v (bidx (a_shape v) [j])
+                  | None => abs st ix
+                  end) /\
+      (wf V veqb fill sh st -> wf V veqb fill sh st').
+  Proof.
+    intros Hlen Hk Hls Hall Hrange Hb Hnd.
+    unfold fancy_setitem. rewrite Hlen, Nat.eqb_refl. cbn [negb]. cbv iota.
+    rewrite Hk. cbn [bind]. rewrite Hls. rewrite <- Hls. rewrite Hall. cbn [negb]. cbv iota.
+    set (n := length l0) in *.
+    pose proof (transpose_length n ls Hall) as Htl. rewrite Htl in Hb.
+    destruct v as [vs g]. cbn [a_shape a_get] in *.
+    destruct vs as [|m [|m2 vs2]]; [| |simpl in Hnd; lia].
+    - (* 0-d value *)
+      eexists. split; [reflexivity|]. split.
+      + intros ix. rewrite fold_store_spec by (rewrite repeat_length; assumption).
+        destruct (last_pos idx_eqb ix (transpose n ls)) as [j|] eqn:Ej; [|reflexivity].
+        apply last_pos_bounds in Ej. rewrite nth_repeat_lt by lia. reflexivity.
+      + apply fold_store_wf. exact Hrange.
+    - unfold bcast_ok in Hb. simpl in Hb. rewrite andb_true_r in Hb.
+      destruct (Z.eqb_spec m 1) as [->|Hm1].
+      + (* a length-1 value: broadcast like a scalar *)
+        eexists. split; [reflexivity|]. split.
+        * intros ix. rewrite fold_store_spec by (rewrite repeat_length; assumption).
+          destruct (last_pos idx_eqb ix (transpose n ls)) as [j|] eqn:Ej; [|reflexivity].
+          apply last_pos_bounds in Ej. rewrite nth_repeat_lt by lia. reflexivity.
+        * apply fold_store_wf. exact Hrange.
+      + (* a value of the rows' shape *)
+        simpl in Hb. apply Z.eqb_eq in Hb. subst m. rewrite Z.eqb_refl.
+        eexists. split; [reflexivity|]. split.
+        * intros ix. rewrite fold_store_spec by (unfold zrange; rewrite !map_length, seq_length; lia).
+          destruct (last_pos idx_eqb ix (transpose n ls)) as [j|] eqn:Ej; [|reflexivity].
+          apply last_pos_bounds in Ej. rewrite nth_map_zrange by lia.
+          unfold bidx. simpl. destruct (Z.eqb_spec (Z.of_nat n) 1); [contradiction|reflexivity].
+        * apply fold_store_wf. exact Hrange.
+  Qed.
+
+  (* integer lists *)
   Lemma fancy_setitem_spec sh (st : state V) ls v rows :
     np_rows ls sh = Some rows ->
-    bcast_ok (a_shape v) [Z.of_nat (length rows)] = true ->
-    fancy_in_range ls sh = true -> fancy_nonempty ls = true -> fancy_value_clause ls v = true ->
+    bcast_ok (a_shape v) [Z.of_nat (length rows)] = true -> fancy_value_clause v = true ->
     exists st',
-      fancy_setitem veqb sh fill st ls v = Ok st' /\
+      fancy_setitem veqb sh fill st (map VArr ls) v = Ok st' /\
       (forall ix, abs st' ix =
                   match last_pos idx_eqb ix rows with
                   | Some j => a_get v (bidx (a_shape v) [j])
@@ -1095,36 +1314,45 @@ Section FancyStep.
                   end) /\
       (wf V veqb fill sh st -> wf V veqb fill sh st').
   Proof.
-    unfold np_rows. intros Hrows Hb Hr Hne Hvc.
+    unfold np_rows. intros Hrows Hb Hvc.
     destruct ls as [|l0 ls']; [discriminate|].
     destruct (forallb (fun l => Nat.eqb (length l) (length l0)) (l0 :: ls')) eqn:Hall; [|discriminate].
     destruct (wrap_lists (l0 :: ls') sh) as [ws|] eqn:Ew; [|discriminate].
     inversion Hrows; subst rows; clear Hrows.
-    destruct (wrap_lists_id _ _ _ Hr Ew) as [-> Hlen].
-    unfold fancy_nonempty in Hne. unfold fancy_value_clause in Hvc.
-    unfold fancy_setitem. rewrite Hlen, Nat.eqb_refl. cbn [negb]. cbv iota.
-    rewrite Hall. cbn [negb]. cbv iota.
-    set (n := length l0) in *. set (ls := l0 :: ls') in *.
-    pose proof (transpose_length n ls Hall) as Htl.
-    rewrite Htl in Hb.
-    destruct (Nat.eqb n 0) eqn:En0; [simpl in Hne; discriminate|]. apply Nat.eqb_neq in En0.
-    destruct v as [vs g]. cbn [a_shape a_get] in *.
-    destruct vs as [|m [|m2 vs2]]; [| |discriminate].
-    - (* 0-d value *)
-      eexists. split; [reflexivity|]. split.
-      + intros ix. rewrite fold_store_spec by (rewrite repeat_length; assumption).
-        destruct (last_pos idx_eqb ix (transpose n ls)) as [j|] eqn:Ej; [|reflexivity].
-        apply last_pos_bounds in Ej. rewrite nth_repeat_lt by lia. reflexivity.
-      + apply fold_store_wf. apply transpose_in_range; assumption.
-    - (* 1-d value of the rows' shape *)
-      apply Z.eqb_eq in Hvc. subst m. rewrite Z.eqb_refl.
-      eexists. split; [reflexivity|]. split.
-      + intros ix. rewrite fold_store_spec by (unfold zrange; rewrite !map_length, seq_length; lia).
-        destruct (last_pos idx_eqb ix (transpose n ls)) as [j|] eqn:Ej; [|reflexivity].
-        apply last_pos_bounds in Ej. rewrite nth_map_zrange by lia.
-        unfold bidx. simpl. destruct (Z.eqb_spec (Z.of_nat n) 1); [|reflexivity].
-        f_equal. f_equal. lia.
-      + apply fold_store_wf. apply transpose_in_range; assumption.
+    destruct (wrap_lists_keys _ _ _ Ew) as (Hk & Hr & Hlens & Hlen).
+    destruct ws as [|w0 ws']; [discriminate|].
+    assert (Hw0 : length w0 = length l0) by (simpl in Hlens; inversion Hlens; reflexivity).
+    rewrite <- Hw0 in *.
+    assert (Hall' : forallb (fun l => Nat.eqb (length l) (length w0)) (w0 :: ws') = true)
+      by (rewrite (forallb_length_map _ _ _ Hlens); exact Hall).
+    unfold fancy_value_clause in Hvc. apply Nat.leb_le in Hvc.
+    apply (fancy_setitem_core sh st (map VArr (l0 :: ls')) v (w0 :: ws') w0 ws');
+      try assumption; try reflexivity.
+    - rewrite map_length. exact Hlen.
+    - apply transpose_in_range; [|exact Hr]. apply (f_equal (@length nat)) in Hlens.
+      rewrite !map_length in Hlens. lia.
+  Qed.
+
+  (* a boolean mask over a 1-d array *)
+  Lemma mask_setitem_spec d (st : state V) m v rows :
+    0 <= d -> mask_rows [d] m = Some rows ->
+    bcast_ok (a_shape v) [Z.of_nat (length rows)] = true -> fancy_value_clause v = true ->
+    exists st',
+      fancy_setitem veqb [d] fill st [VBArr m] v = Ok st' /\
+      (forall ix, abs st' ix =
+                  match last_pos idx_eqb ix rows with
+                  | Some j => a_get v (bidx (a_shape v) [j])
+                  | None => abs st ix
+                  end) /\
+      (wf V veqb fill [d] st -> wf V veqb fill [d] st').
+  Proof.
+    intros Hd Hrows Hb Hvc. pose proof (mask_rows_in_range _ _ _ Hrows) as Hrange.
+    destruct (mask_rows_1d d m rows Hd Hrows) as [Hlen ->].
+    unfold fancy_value_clause in Hvc. apply Nat.leb_le in Hvc.
+    apply (fancy_setitem_core [d] st [VBArr m] v [nonzero_from 0 m] (nonzero_from 0 m) []);
+      try assumption; try reflexivity.
+    - cbn [fancy_keys]. rewrite fancy_key1_mask. rewrite Hlen, Z.eqb_refl. reflexivity.
+    - cbn [forallb]. rewrite Nat.eqb_refl. reflexivity.
   Qed.
 End FancyStep.
 
@@ -1203,6 +1431,15 @@ Section Histories.
   Qed.
 
   (* THE STEP LEMMA: one in-domain assignment on the dict = NumPy's assignment on its meaning *)
+  Lemma fits_cases elem vs ss :
+    index_value_fits elem vs ss = true -> (ss = [] -> elem = false -> vs = []) ->
+    bcast_ok vs ss = true /\ (ss = [] -> vs = []).
+  Proof.
+    unfold index_value_fits. destruct elem.
+    - destruct vs; [|discriminate]. intros _ _. split; [reflexivity|auto].
+    - intros Hb H0. split; [exact Hb|]. intros Hs. apply H0; [exact Hs|reflexivity].
+  Qed.
+
   Lemma step_spec sh (st : state) op :
     shape_ok sh -> op_dom sh op = true ->
     (forall ix, abs (step sh fill st op) ix = np_assign sh (abs st) op ix) /\
@@ -1212,41 +1449,51 @@ Section Histories.
     apply andb_true_iff in Hdom. destruct Hdom as [Hval Hcl].
     pose proof (np_setitem_ext sh (fun _ => a_get v []) (abs st) k v) as Hext.
     unfold DOK.step, np_assign. simpl fst. simpl snd.
-    destruct k as [es|ls|m|ix]; [| |discriminate|]; simpl in *.
-    3: {
-      repeat (apply andb_true_iff in Hcl; destruct Hcl as [Hcl ?]).
-      rename H into Hvn, H0 into Hz, H1 into Hna, H2 into Hnn, Hcl into Hne.
-      assert (Hset : setitem veqb sh fill st (KIndex ix) v = setitem_index veqb sh fill st ix v)
-        by (destruct ix; [discriminate|reflexivity]).
-      simpl in Hset. rewrite Hset. clear Hset.
-      unfold index_value_ndim_clause in Hvn.
-      destruct (np_index_axes sh ix) as [axs|] eqn:Eax; [|discriminate].
-      unfold np_setitem_axes in *.
-      destruct (index_value_fits (np_scalar sh ix) (a_shape v) (selshape axs)) eqn:Eb; [|discriminate].
-      apply index_value_fits_bcast in Eb. apply Nat.leb_le in Hvn.
-      destruct (setitem_index_spec V veqb veqb_eq fill sh st ix v axs Hok Hnn Hna Hz Eax Eb Hvn)
-        as (st' & He & Ha & Hw).
-      rewrite He. split; [exact Ha|exact Hw]. }
-    - apply andb_true_iff in Hcl. destruct Hcl as [Hed Hvn].
-      assert (Hset : setitem veqb sh fill st (KBasic es) v = setitem_basic veqb sh fill st es v)
-        by (destruct es; [discriminate|reflexivity]).
-      simpl in Hset. rewrite Hset. clear Hset.
-      unfold np_setitem_basic in *. unfold value_ndim_clause in Hvn.
+    destruct k as [es|ls|m|ix]; simpl in *.
+    - (* integers and slices *)
+      unfold np_setitem_basic in *.
       destruct (np_axes (np_pad es sh) sh) as [axs|] eqn:Eax; [|discriminate].
       destruct (value_fits (a_shape v) (selshape axs)) eqn:Eb; [|discriminate].
+      assert (H0 : selshape axs = [] -> a_shape v = []).
+      { intros Hs. unfold value_fits in Eb. rewrite Hs in Eb. destruct (a_shape v); [reflexivity|discriminate]. }
       apply value_fits_bcast in Eb.
-      apply Nat.leb_le in Hvn.
-      destruct (setitem_basic_spec V veqb veqb_eq fill sh st es v axs Hok Eax Eb Hvn)
+      destruct (setitem_basic_spec V veqb veqb_eq fill sh st es v axs Hok Eax Eb H0)
         as (st' & He & Ha & Hw).
       rewrite He. split; [exact Ha|exact Hw].
-    - apply andb_true_iff in Hcl. destruct Hcl as [Hcl Hvc].
-      apply andb_true_iff in Hcl. destruct Hcl as [Hir Hne].
+    - (* one integer list per axis *)
       destruct (np_rows ls sh) as [rows|] eqn:Er; [|discriminate].
       unfold np_assign_rows in *.
       destruct (bcast_ok (a_shape v) [Z.of_nat (length rows)]) eqn:Eb; [|discriminate].
-      destruct (fancy_setitem_spec V veqb veqb_eq fill sh st ls v rows Er Eb Hir Hne Hvc)
+      destruct (fancy_setitem_spec V veqb veqb_eq fill sh st ls v rows Er Eb Hcl)
         as (st' & He & Ha & Hw).
       rewrite He. split; [exact Ha|exact Hw].
+    - (* a boolean mask over a 1-d array *)
+      destruct sh as [|d [|d2 sh2]]; try discriminate.
+      inversion Hok as [|? ? Hd _]; subst.
+      destruct (mask_rows [d] m) as [rows|] eqn:Er; [|discriminate].
+      unfold np_assign_rows in *.
+      destruct (bcast_ok (a_shape v) [Z.of_nat (length rows)]) eqn:Eb; [|discriminate].
+      destruct (mask_setitem_spec V veqb veqb_eq fill d st m v rows Hd Er Eb Hcl)
+        as (st' & He & Ha & Hw).
+      rewrite He. split; [exact Ha|exact Hw].
+    - (* a general basic index *)
+      repeat (apply andb_true_iff in Hcl; destruct Hcl as [Hcl ?]).
+      rename H into Hv0, H0 into Hz, H1 into Hna, Hcl into Hnn.
+      unfold view0d_clause in Hv0.
+      destruct (np_index_axes sh ix) as [axs|] eqn:Eax; [|discriminate].
+      unfold np_setitem_axes in *.
+      destruct (index_value_fits (np_scalar sh ix) (a_shape v) (selshape axs)) eqn:Eb; [|discriminate].
+      destruct (fits_cases _ _ _ Eb) as [Hb H0].
+      { intros Hs _. rewrite Hs in Hv0. destruct (a_shape v); [reflexivity|discriminate]. }
+      destruct ix as [|e0 ix0].
+      + (* () is (Ellipsis,) *)
+        rewrite <- np_index_axes_empty in Eax.
+        destruct (setitem_index_spec V veqb veqb_eq fill sh st [IEllipsis] v axs Hok eq_refl eq_refl eq_refl Eax Hb H0)
+          as (st' & He & Ha & Hw).
+        rewrite He. split; [exact Ha|exact Hw].
+      + destruct (setitem_index_spec V veqb veqb_eq fill sh st (e0 :: ix0) v axs Hok Hnn Hna Hz Eax Hb H0)
+          as (st' & He & Ha & Hw).
+        rewrite He. split; [exact Ha|exact Hw].
   Qed.
 
   (* REFINEMENT over arbitrary histories *)
@@ -1269,6 +1516,21 @@ Section Histories.
   Proof.
     intros Hok Hdom. unfold DOK.run.
     apply (run_refines sh ops [] (np_full fill) Hok Hdom); [reflexivity|apply wf_nil].
+  Qed.
+
+  (* keys of integers and slices (the empty key () included), any start / stop / step, scalar or
+     array values with any number of leading axes of extent 1: NO clause at all *)
+  Definition basic_valid (sh : shape) (op : key * arr V) : bool :=
+    match fst op with KBasic _ => op_valid sh op | _ => false end.
+
+  Theorem dok_refines_dense_basic_proof sh ops :
+    shape_ok sh -> forallb (basic_valid sh) ops = true ->
+    forall ix, abs (run sh fill ops) ix = fold_left (np_assign sh) ops (np_full fill) ix.
+  Proof.
+    intros Hok Hb. apply dok_refines_dense_proof; [exact Hok|].
+    rewrite forallb_forall in *. intros op Hin. specialize (Hb op Hin).
+    unfold basic_valid in Hb. unfold op_dom. destruct op as [[es|ls|m|ix] v]; simpl in *; try discriminate.
+    rewrite Hb. reflexivity.
   Qed.
 
   Theorem dok_wf_proof sh ops :
@@ -1332,33 +1594,38 @@ Section Histories.
       + destruct ind; try discriminate. apply IH.
   Qed.
 
+  Lemma fancy_setitem_closed (P : state -> Prop) sh :
+    (forall k x st, P st -> P (store veqb fill k x st)) ->
+    forall ps v st st', fancy_setitem veqb sh fill st ps v = Ok st' -> P st -> P st'.
+  Proof.
+    intros HP ps v st st' E Hp. unfold fancy_setitem in E.
+    destruct (negb (Nat.eqb (length ps) (length sh))); [discriminate|].
+    destruct (fancy_keys ps sh) as [ls|]; simpl in E; [|discriminate].
+    destruct ls as [|l0 ls']; [discriminate|].
+    destruct (negb (forallb (fun l => Nat.eqb (length l) (length l0)) (l0 :: ls'))); [discriminate|].
+    match type of E with (bind ?m _) = _ => destruct m as [vals|]; simpl in E; [|discriminate] end.
+    inversion E; subst; clear E.
+    match goal with |- P (fold_left _ ?c _) => generalize c end. revert Hp. generalize st.
+    intros s Hs l. revert s Hs. induction l as [|kx l IHl]; intros s Hs; simpl; [assumption|].
+    apply IHl. apply HP. assumption.
+  Qed.
+
   Lemma step_closed (P : state -> Prop) sh :
     (forall k x st, P st -> P (store veqb fill k x st)) ->
     forall st op, P st -> P (step sh fill st op).
   Proof.
     intros HP st [k v] Hp. unfold DOK.step. simpl.
     destruct (setitem veqb sh fill st k v) as [st'|] eqn:E; [|assumption].
-    destruct k as [es|ls|m|ix]; simpl in E; [| |discriminate|].
-    3: {
-      assert (E' : setitem_index veqb sh fill st ix v = Ok st')
-        by (destruct ix; [destruct sh as [|? [|? ?]]; discriminate|exact E]).
-      clear E. unfold setitem_index in E'.
-      destruct (CooIndex.normalize_index ix sh); simpl in E'; [|discriminate].
-      eapply setitem_go_closed; eassumption. }
-    - assert (E' : setitem_basic veqb sh fill st es v = Ok st')
-        by (destruct es; [destruct sh as [|? [|? ?]]; discriminate|exact E]).
-      clear E. rename E' into E. unfold setitem_basic in E. destruct (normalize_key es sh); simpl in E; [|discriminate].
+    destruct k as [es|ls|m|ix]; simpl in E.
+    - unfold setitem_basic in E. destruct (normalize_key es sh); simpl in E; [|discriminate].
       eapply setitem_go_closed; eassumption.
-    - unfold fancy_setitem in E.
-      destruct (negb (Nat.eqb (length ls) (length sh))); [discriminate|].
-      destruct ls as [|l0 ls']; [discriminate|].
-      destruct (negb (forallb (fun l => Nat.eqb (length l) (length l0)) (l0 :: ls'))); [discriminate|].
-      destruct (Nat.eqb (length l0) 0); [discriminate|].
-      match type of E with (bind ?m _) = _ => destruct m as [vals|]; simpl in E; [|discriminate] end.
-      inversion E; subst; clear E.
-      match goal with |- P (fold_left _ ?c _) => generalize c end. revert Hp. generalize st.
-      intros s Hs l. revert s Hs. induction l as [|kx l IHl]; intros s Hs; simpl; [assumption|].
-      apply IHl. apply HP. assumption.
+    - eapply fancy_setitem_closed; eassumption.
+    - destruct sh as [|d [|d2 sh2]]; try discriminate. eapply fancy_setitem_closed; eassumption.
+    - assert (E' : exists ix', setitem_index veqb sh fill st ix' v = Ok st')
+        by (destruct ix; eexists; exact E).
+      destruct E' as [ix' E']. unfold setitem_index in E'.
+      destruct (CooIndex.normalize_index ix' sh); simpl in E'; [|discriminate].
+      eapply setitem_go_closed; eassumption.
   Qed.
 
   (* after ANY history of assignments — whatever the keys and values, in or out of the domain,
@@ -1441,28 +1708,35 @@ Section Reads.
     shape_ok sh -> read_dom sh k = true ->
     np_getitem sh (abs fill st) k = Some r -> getitem sh fill st k = Ok r.
   Proof.
-    intros Hok Hdom. destruct k as [es|ls|m|ix]; simpl in *; [| |discriminate|].
-    3: {
-      apply andb_true_iff in Hdom. destruct Hdom as [Hdom Hz].
-      apply andb_true_iff in Hdom. destruct Hdom as [Hne Hna].
-      destruct (np_index_axes sh ix) as [axs|] eqn:Eax; [|discriminate].
-      intros H. inversion H; subst; clear H.
-      destruct (index_read_link sh ix axs Hok Hna Hz Eax) as (nix & Hn & Ha).
-      destruct ix as [|e0 ix0]; [discriminate|].
-      unfold getitem_index. rewrite Hn. cbn [bind]. rewrite Ha. reflexivity. }
+    intros Hok Hdom. destruct k as [es|ls|m|ix]; simpl in *.
     - destruct (np_axes (np_pad es sh) sh) as [axs|] eqn:Eax; [|discriminate].
       intros H. inversion H; subst; clear H.
       destruct (norm_entries_resolves _ _ _ Hok Eax) as (ents & Hn & _ & Ha).
-      destruct es as [|e0 es0]; [discriminate|].
       unfold getitem_basic, normalize_key. rewrite Hn. simpl. rewrite Ha. reflexivity.
     - unfold np_rows. destruct ls as [|l0 ls']; [discriminate|].
       destruct (forallb (fun l => Nat.eqb (length l) (length l0)) (l0 :: ls')) eqn:Hall; [|discriminate].
       destruct (wrap_lists (l0 :: ls') sh) as [ws|] eqn:Ew; [|discriminate].
       intros H. inversion H; subst; clear H.
-      destruct (wrap_lists_id _ _ _ Hdom Ew) as [-> Hlen].
-      unfold fancy_getitem. rewrite Hlen, Nat.eqb_refl. cbn [negb]. cbv iota.
-      rewrite Hall. cbn [negb]. cbv iota.
-      rewrite (transpose_length _ _ Hall). reflexivity.
+      destruct (wrap_lists_keys _ _ _ Ew) as (Hk & _ & Hlens & Hlen).
+      destruct ws as [|w0 ws']; [discriminate|].
+      assert (Hw0 : length w0 = length l0) by (simpl in Hlens; inversion Hlens; reflexivity).
+      unfold fancy_getitem. rewrite map_length, Hlen, Nat.eqb_refl. cbn [negb]. cbv iota.
+      rewrite Hk. cbn [bind]. rewrite <- Hw0 in *.
+      rewrite (forallb_length_map _ _ _ Hlens), Hall. cbn [negb]. cbv iota.
+      rewrite transpose_length by (rewrite (forallb_length_map _ _ _ Hlens); exact Hall). reflexivity.
+    - destruct sh as [|d [|d2 sh2]]; try discriminate.
+      inversion Hok as [|? ? Hd _]; subst.
+      destruct (mask_rows [d] m) as [rows|] eqn:Er; [|discriminate].
+      intros H. inversion H; subst; clear H.
+      destruct (mask_rows_1d d m rows Hd Er) as [Hlen ->].
+      unfold fancy_getitem. cbn [length Nat.eqb negb fancy_keys]. rewrite fancy_key1_mask, Hlen, Z.eqb_refl.
+      cbn [bind forallb]. rewrite Nat.eqb_refl. cbn [andb negb].
+      rewrite transpose_length by (cbn [forallb]; rewrite Nat.eqb_refl; reflexivity). reflexivity.
+    - apply andb_true_iff in Hdom. destruct Hdom as [Hna Hz].
+      destruct (np_index_axes sh ix) as [axs|] eqn:Eax; [|discriminate].
+      intros H. inversion H; subst; clear H.
+      destruct (index_read_link sh ix axs Hok Hna Hz Eax) as (nix & Hn & Ha).
+      unfold getitem_index. rewrite Hn. cbn [bind]. rewrite Ha. reflexivity.
   Qed.
 End Reads.
 
@@ -1475,56 +1749,60 @@ Definition zmat (rows : list (list Z)) : arr Z :=
   mkArr [Z.of_nat (length rows); Z.of_nat (length (hd [] rows))]
         (fun ix => match ix with [i; j] => nth (Z.to_nat j) (nth (Z.to_nat i) rows []) 0 | _ => 0 end).
 
-(* integer-list keys: d[[-1]] = 5 stores the key (-1,) *)
-Theorem dok_fancy_negative_refuted_proof :
+(* integer-list keys: d[[0, 1]] = np.array([[5, 6]]) (a value with a leading axis of extent 1)
+   raises ValueError "Dimension of values (2) must be 0 or 1!" (pinned by the test suite); NumPy
+   broadcasts it *)
+Theorem dok_fancy_value_ndim_refuted_proof :
   exists (sh : shape) (fill : Z) (op : key * arr Z) (ix : idx),
     shape_ok sh /\ op_valid sh op = true /\
     abs fill (step Z.eqb sh fill [] op) ix <> np_assign sh (np_full fill) op ix.
 Proof.
-  exists [5], 0, (KFancy [[-1]], zsc 5), [4].
+  exists [5], 0, (KFancy [[0; 1]], zmat [[5; 6]]), [1].
   split; [repeat constructor; lia|]. split; [reflexivity|]. vm_compute. congruence.
 Qed.
 
-(* integer-list keys: d[[0, 1]] = [5] (a broadcastable length-1 value) is rejected; d[[]] = 5 too *)
-Theorem dok_fancy_value_refuted_proof :
-  exists (sh : shape) (fill : Z) (op : key * arr Z) (ix : idx),
-    shape_ok sh /\ op_valid sh op = true /\
-    match fst op with KFancy ls => fancy_in_range ls sh && fancy_nonempty ls | _ => false end = true /\
-    abs fill (step Z.eqb sh fill [] op) ix <> np_assign sh (np_full fill) op ix.
-Proof.
-  exists [5], 0, (KFancy [[0; 1]], zvec [5]), [1].
-  split; [repeat constructor; lia|]. split; [reflexivity|]. split; [reflexivity|]. vm_compute. congruence.
-Qed.
-
-(* boolean masks: d[mask] = 5 raises IndexError *)
+(* a single n-d boolean array as key: d[mask2d] = 5 raises IndexError *)
 Theorem dok_mask_refuted_proof :
   exists (sh : shape) (fill : Z) (op : key * arr Z) (ix : idx),
     shape_ok sh /\ op_valid sh op = true /\
     abs fill (step Z.eqb sh fill [] op) ix <> np_assign sh (np_full fill) op ix.
 Proof.
-  exists [3], 0, (KMask [true; false; true], zsc 5), [2].
+  exists [2; 2], 0, (KMask [true; false; false; true], zsc 5), [1; 1].
   split; [repeat constructor; lia|]. split; [reflexivity|]. vm_compute. congruence.
 Qed.
 
-(* values: d[0:2] = [[1, 2]] (surplus leading axis of extent 1) raises ValueError *)
-Theorem dok_value_ndim_refuted_proof :
+(* a 0-d VIEW as target: d = DOK((3,)); d[..., -1] = np.array([5]) raises ValueError; NumPy
+   broadcasts the one-element array into x[..., -1] *)
+Theorem dok_view0d_refuted_proof :
   exists (sh : shape) (fill : Z) (op : key * arr Z) (ix : idx),
     shape_ok sh /\ op_valid sh op = true /\
     abs fill (step Z.eqb sh fill [] op) ix <> np_assign sh (np_full fill) op ix.
 Proof.
-  exists [5], 0, (KBasic [KSlice (Some 0) (Some 2) None], zmat [[1; 2]]), [1].
+  exists [3], 0, (KIndex [IEllipsis; IInt (-1)], zvec [5]), [2].
   split; [repeat constructor; lia|]. split; [reflexivity|]. vm_compute. congruence.
 Qed.
 
-(* the empty tuple: d[()] = 5 raises NotImplementedError (IndexError on a 1-d array) *)
-Theorem dok_empty_key_refuted_proof :
-  exists (sh : shape) (fill : Z) (op : key * arr Z) (ix : idx),
-    shape_ok sh /\ op_valid sh op = true /\
-    abs fill (step Z.eqb sh fill [] op) ix <> np_assign sh (np_full fill) op ix.
-Proof.
-  exists [2; 2], 0, (KBasic [], zsc 5), [1; 1].
-  split; [repeat constructor; lia|]. split; [reflexivity|]. vm_compute. congruence.
-Qed.
+(* the defects repaired in round 7 (b72190a, 336daf5, d195a7a, 6eae3a6, e6d97fc) are INSIDE the
+   proved domain; their old witnesses as regression examples *)
+Example dok_round7_defects_fixed :
+  (* d[[-1]] = 5 stores the key (4,) *)
+  run Z.eqb [5] 0 [(KFancy [[-1]], zsc 5)] = [([4], 5)] /\
+  (* d[[0, 1]] = [5] broadcasts; d[[]] = 5 does nothing *)
+  run Z.eqb [5] 0 [(KFancy [[0; 1]], zvec [5])] = [([0], 5); ([1], 5)] /\
+  run Z.eqb [5] 0 [(KFancy [[]], zsc 5)] = [] /\
+  (* d[mask] = 5 on a 1-d DOK, and reading it back through the mask *)
+  run Z.eqb [3] 0 [(KMask [true; false; true], zsc 5)] = [([0], 5); ([2], 5)] /\
+  getitem [3] 0 [([0], 5); ([2], 5)] (KMask [true; false; true]) = Ok ([2], [5; 5]) /\
+  (* d[0:2] = np.array([[1, 2]]) drops the leading axis *)
+  run Z.eqb [5] 0 [(KBasic [KSlice (Some 0) (Some 2) None], zmat [[1; 2]])] = [([0], 1); ([1], 2)] /\
+  (* d[()] = 5 assigns everything; d[()] reads everything *)
+  run Z.eqb [2; 2] 0 [(KBasic [], zsc 5)] = [([0; 0], 5); ([0; 1], 5); ([1; 0], 5); ([1; 1], 5)] /\
+  getitem [2; 2] 0 [([0; 1], 7)] (KBasic []) = Ok ([2; 2], [0; 7; 0; 0]) /\
+  forallb (op_dom [5]) [(KFancy [[-1]], zsc 5); (KFancy [[0; 1]], zvec [5]); (KFancy [[]], zsc 5);
+                        (KBasic [KSlice (Some 0) (Some 2) None], zmat [[1; 2]]); (KBasic [], zsc 5);
+                        (KIndex [], zsc 5)] = true /\
+  op_dom [3] (KMask [true; false; true], zvec [5; 6]) = true.
+Proof. vm_compute. repeat split. Qed.
 
 (* the former defects D1, D4 and the double normalisation of reads (fixed in /repo by f6512bb and
    97946a9) are now INSIDE the proved domain; their old witnesses as regression examples *)
